@@ -48,6 +48,9 @@ def rta_prop(paths, mode, prop, floor_instances, what):
             from . import rules_mono
             rep.rule('LIM-NI', 'non-interference: the limit parameter reaches only the divergence-limit argument of search*')
             rules_mono.check_all_limits(rep, crate, ['fixed_priority::', 'edf::', 'fifo::'])
+            rep.rule('FP-*', 'the fixed-point kernel every analysis iterates with (see C08): start value, inclusive guard, Ok payload/condition, strict progress, Err payload')
+            rules_fp.check_search_with_offset(rep, crate)
+            rules_fp.check_max_response_time(rep, crate)
         rep.floor('analysis entry points', models, len(paths))
         rep.floor('rule instances', len(rep.instances), floor_instances)
         return (f'Static analysis of the type-checked HIR of /repo (re-extracted by this run). Decides named '
@@ -155,6 +158,9 @@ def ros2_prop(which, mode, prop, floor):
             from . import rules_mono
             rep.rule('LIM-NI', 'non-interference: the limit parameter reaches only the divergence-limit argument of search*')
             rules_mono.check_all_limits(rep, dbg, ['ros2::'])
+            rep.rule('FP-*', 'the fixed-point kernel every analysis iterates with (see C08)')
+            rules_fp.check_search_with_offset(rep, dbg)
+            rules_fp.check_max_response_time(rep, dbg)
         rep.floor('analysis entry points', n, {'ecrts19': 4, 'rr': 1, 'bw': 2}.get(which[0], 0) if len(which) == 1 else sum({'ecrts19': 4, 'rr': 1, 'bw': 2}[w] for w in which))
         rep.floor('rule instances', len(rep.instances), floor)
         return (f'Static analysis of the type-checked HIR: the right-hand sides, result expressions and search spaces of the '
